@@ -215,6 +215,13 @@ namespace
 		parts.push_back(down(w));
 		parts.push_back(']');
 	      }
+	    else if (w == '^')
+	      {
+		// "[^]" would not be a bracket expression matching '^'
+		// (a leading '^' negates the set), so escape it instead.
+		parts.push_back('\\');
+		parts.push_back('^');
+	      }
 	    else
 	      {
 		parts.push_back('[');
